@@ -123,3 +123,10 @@ package staking
 //@   loop 1 invariant stakingState.Ledger() == old(stakingState.Ledger()) && stakingState.GSupply == old(stakingState.GSupply) && stakingState.GCommon == old(stakingState.GCommon)
 //@   loop 1 invariant forall j int :: 0 <= j && j < len(expiredDebondingQueue) ==> expiredDebondingQueue[j] != nil && expiredDebondingQueue[j].Delegation != nil && quantity.Val(&expiredDebondingQueue[j].Delegation.Shares) >= 0
 //@   note debonded stake moves from the escrow account's debonding pool to the delegator's general balance (same account handled once), then the epoch's signing rewards are paid from the common pool: the ledger and the recorded supply are unchanged
+
+//@ func Application.withdraw
+//@   props C08
+//@   requires app != nil && ctx != nil && state != nil && withdraw != nil && quantity.Val(&withdraw.Amount) >= 0 && allocated(api.TreeOf(ctx))
+//@   ensures err != nil && !unavail(err) ==> api.GTreeW[old(api.TreeOf(ctx))] == old(api.GTreeW[api.TreeOf(ctx)])
+//@   ensures err != nil ==> api.GCommits == old(api.GCommits)
+//@   note every failing return leaves the tree the handler was entered with unwritten - including what the withdraw hook's subscribers wrote: the hook is invoked inside the transaction context and that context is committed only on success
